@@ -175,6 +175,12 @@ func genC15(t *rapid.T) c15Case {
 			nb = b
 		}
 	}
+	if (c.Kind == "readgroup" || c.Kind == "b2") && rapid.IntRange(0, 3).Draw(t, "bigfile") == 0 { // files larger than a 10^6-bit sample
+		nb = rapid.SampledFrom([]int{124999, 125000, 125001, 125008, 250000, 0}).Draw(t, "filebytes")
+		if nb == 0 {
+			nb = uniformInt(t, 100000, 400000, "filebytes_any")
+		}
+	}
 	if rapid.IntRange(0, 30).Draw(t, "big") == 0 && thorough() {
 		nb = 125000
 	}
@@ -207,6 +213,8 @@ func TestC15Sweep(t *testing.T) {
 	}
 	cases = append(cases, c15Case{Kind: "round", Seq: gen.Seq{Family: "uniform", N: 1000000, Seed: 77}})
 	cases = append(cases, c15Case{Kind: "round", Seq: gen.Seq{Family: "uniform", N: 20000, Seed: 78}})
-	cases = append(cases, c15Case{Kind: "readgroup", Seq: gen.Seq{Family: "uniform", N: 1000000, Seed: 79}})
+	for i, n := range []int{8, 1000000, 1000008, 2000000, 10000000} {
+		cases = append(cases, c15Case{Kind: "readgroup", Seq: gen.Seq{Family: "uniform", N: n, Seed: uint64(79 + i)}})
+	}
 	enumerate(t, "C15", cases, checkC15)
 }
